@@ -26,27 +26,30 @@ var (
 	evOp  = sim.RegisterEv(600, "op")
 	evObs = sim.RegisterEv(601, "observe")
 
-	cNontrivial    = simrt.RegisterCounter("nontrivial")
-	cAdd           = simrt.RegisterCounter("op_add_channel")
-	cDisable       = simrt.RegisterCounter("op_disable")
-	cEnable        = simrt.RegisterCounter("op_enable")
-	cObserve       = simrt.RegisterCounter("op_observer_steps")
-	cBadIdx        = simrt.RegisterCounter("fault_out_of_range_or_negative_index")
-	cJunkArgs      = simrt.RegisterCounter("fault_junk_addchannel_arguments")
-	cDupFreq       = simrt.RegisterCounter("fault_duplicate_of_standard_frequency")
-	cZeroFreq      = simrt.RegisterCounter("fault_frequency_zero")
-	cFixedAdd      = simrt.RegisterCounter("probe_addchannel_on_fixed_plan")
-	cCFListChan    = simrt.RegisterCounter("probe_cflist_channel_list")
-	cCFListMask    = simrt.RegisterCounter("probe_cflist_channel_mask")
-	cJoinAccept    = simrt.RegisterCounter("probe_join_accept_wire_roundtrip")
-	cMACClosure    = simrt.RegisterCounter("probe_mac_command_closure")
-	cLinkADR       = simrt.RegisterCounter("probe_linkadr_payload_closure")
-	cSixCustom     = simrt.RegisterCounter("probe_more_than_five_custom_channels")
-	cLookup        = simrt.RegisterCounter("probe_lookups")
-	cBeyondPlan    = simrt.RegisterCounter("probe_device_set_with_channel_beyond_plan")
-	cBlockOps      = simrt.RegisterCounter("op_whole_block_enable_disable")
-	cStreamClosure = simrt.RegisterCounter("probe_band_outputs_in_one_command_stream")
-	cFreshChanged  = simrt.RegisterCounter("probe_fresh_config_differs_after_run")
+	cNontrivial     = simrt.RegisterCounter("nontrivial")
+	cAdd            = simrt.RegisterCounter("op_add_channel")
+	cDisable        = simrt.RegisterCounter("op_disable")
+	cEnable         = simrt.RegisterCounter("op_enable")
+	cObserve        = simrt.RegisterCounter("op_observer_steps")
+	cBadIdx         = simrt.RegisterCounter("fault_out_of_range_or_negative_index")
+	cJunkArgs       = simrt.RegisterCounter("fault_junk_addchannel_arguments")
+	cDupFreq        = simrt.RegisterCounter("fault_duplicate_of_standard_frequency")
+	cZeroFreq       = simrt.RegisterCounter("fault_frequency_zero")
+	cFixedAdd       = simrt.RegisterCounter("probe_addchannel_on_fixed_plan")
+	cCFListChan     = simrt.RegisterCounter("probe_cflist_channel_list")
+	cCFListMask     = simrt.RegisterCounter("probe_cflist_channel_mask")
+	cJoinAccept     = simrt.RegisterCounter("probe_join_accept_wire_roundtrip")
+	cMACClosure     = simrt.RegisterCounter("probe_mac_command_closure")
+	cLinkADR        = simrt.RegisterCounter("probe_linkadr_payload_closure")
+	cSixCustom      = simrt.RegisterCounter("probe_more_than_five_custom_channels")
+	cLookup         = simrt.RegisterCounter("probe_lookups")
+	cBeyondPlan     = simrt.RegisterCounter("probe_device_set_with_channel_beyond_plan")
+	cBlockOps       = simrt.RegisterCounter("op_whole_block_enable_disable")
+	cStreamClosure  = simrt.RegisterCounter("probe_band_outputs_in_one_command_stream")
+	cOffGrid        = simrt.RegisterCounter("fault_custom_channel_off_the_regions_grid")
+	cOffGridRefused = simrt.RegisterCounter("probe_off_grid_value_refused_by_mac_layer_not_judged")
+	cRX1Freq        = simrt.RegisterCounter("probe_rx1_frequency_through_dlchannelreq")
+	cFreshChanged   = simrt.RegisterCounter("probe_fresh_config_differs_after_run")
 )
 
 var names = []band.Name{band.EU868, band.US915, band.AU915, band.AS923, band.AS923_2, band.AS923_3, band.AS923_4,
@@ -103,6 +106,7 @@ type state struct {
 	nDown      int            // length of the downlink table (grows with every accepted AddChannel)
 	nTXPower   int            // length of the TX-power offset table
 	steps      int
+	judgeEnc   bool // whether a refusal by the MAC layer is a violation for the value at hand
 }
 
 func operator(name band.Name, rep bool, dt lorawan.DwellTime, nOps int, sub uint64) {
@@ -236,7 +240,19 @@ func (st *state) op(r *sim.Rand) {
 		var f uint32
 		minDR, maxDR := st.m.CFMinDR, st.m.CFMaxDR
 		grid := true
-		switch r.Intn(8) {
+		switch r.Intn(9) {
+		case 4:
+			// a frequency the MAC layer may or may not be able to carry: off the
+			// region's grid, around the edges of the 24-bit / 100 Hz and the
+			// 2.4 GHz / 200 Hz encodings
+			edges := []uint32{1199999900, 1200000000, 1200000100, 1677721500, 1677721600, 2399999800, 2400000000, 2400000200, 100, 4294967200}
+			if r.Intn(2) == 0 {
+				f = edges[r.Intn(len(edges))]
+			} else {
+				f = uint32(r.Intn(42949672)) * 100
+			}
+			grid = false
+			simrt.Count(cOffGrid)
 		case 0:
 			f = uint32(r.U64()) // junk
 			minDR, maxDR = r.Intn(40)-20, r.Intn(40)-20
@@ -440,15 +456,56 @@ func (st *state) observe(r *sim.Rand) {
 					}
 				}
 			}
-			// a frequency no channel has is not found
-			absent := uint32(1 + r.Intn(99))
-			for _, def := range []bool{true, false} {
-				if idx, err := b.GetUplinkChannelIndex(absent, def); err == nil {
-					simrt.Report("p1.lookup:GetUplinkChannelIndex", fmt.Sprintf("%s: GetUplinkChannelIndex(%d,%v) = %d although no channel has that frequency", st.name, absent, def, idx))
+			// any other frequency: not found unless a channel has it, and then
+			// the index returned is a channel with that frequency. Candidates sit
+			// where a calculated or scanned lookup would go wrong: tiny values,
+			// neighbours of a channel on the plan's raster, one and two raster
+			// steps before the first and past the last channel.
+			spacing := uint32(200000)
+			if n >= 2 && m.Chans[1].Freq > m.Chans[0].Freq {
+				spacing = m.Chans[1].Freq - m.Chans[0].Freq
+			}
+			first, last := m.Chans[0].Freq, m.Chans[0].Freq
+			lastStd := m.Chans[0].Freq
+			for _, c := range m.Chans {
+				if c.Freq < first {
+					first = c.Freq
+				}
+				if c.Freq > last {
+					last = c.Freq
+				}
+				if !c.Custom {
+					lastStd = c.Freq
 				}
 			}
-			if idx, err := b.GetUplinkChannelIndexForFrequencyDR(absent, 0); err == nil {
-				simrt.Report("p1.lookup:GetUplinkChannelIndexForFrequencyDR", fmt.Sprintf("%s: GetUplinkChannelIndexForFrequencyDR(%d,0) = %d although no channel has that frequency", st.name, absent, idx))
+			cands := []uint32{uint32(1 + r.Intn(99)), mc.Freq + 100, mc.Freq - 100, mc.Freq + spacing, mc.Freq - spacing,
+				last + spacing, last + 2*spacing, first - spacing, first - 2*spacing, lastStd + spacing, m.Chans[n-1].Freq + spacing,
+				mc.Freq + spacing/2, 0}
+			other := cands[r.Intn(len(cands))]
+			has := func(f uint32, custom, any bool) bool {
+				for _, c := range m.Chans {
+					if c.Freq == f && (any || c.Custom == custom) {
+						return true
+					}
+				}
+				return false
+			}
+			for _, def := range []bool{true, false} {
+				if idx, err := b.GetUplinkChannelIndex(other, def); err == nil {
+					if !has(other, !def, false) {
+						simrt.Report("p1.lookup:GetUplinkChannelIndex", fmt.Sprintf("%s: GetUplinkChannelIndex(%d,%v) = %d although no such channel has that frequency", st.name, other, def, idx))
+					} else if idx < 0 || idx >= n || m.Chans[idx].Freq != other || m.Chans[idx].Custom == def {
+						simrt.Report("p1.lookup:GetUplinkChannelIndex", fmt.Sprintf("%s: GetUplinkChannelIndex(%d,%v) = %d, model channel there is %+v", st.name, other, def, idx, chanAt(m, idx)))
+					}
+				}
+			}
+			odr := r.Intn(8)
+			if idx, err := b.GetUplinkChannelIndexForFrequencyDR(other, odr); err == nil {
+				if !has(other, false, true) {
+					simrt.Report("p1.lookup:GetUplinkChannelIndexForFrequencyDR", fmt.Sprintf("%s: GetUplinkChannelIndexForFrequencyDR(%d,%d) = %d although no channel has that frequency", st.name, other, odr, idx))
+				} else if idx < 0 || idx >= n || m.Chans[idx].Freq != other || odr < m.Chans[idx].MinDR || odr > m.Chans[idx].MaxDR {
+					simrt.Report("p1.lookup:GetUplinkChannelIndexForFrequencyDR", fmt.Sprintf("%s: GetUplinkChannelIndexForFrequencyDR(%d,%d) = %d, model channel there is %+v", st.name, other, odr, idx, chanAt(m, idx)))
+				}
 			}
 			dr := []int{mc.MinDR - 1, mc.MinDR, mc.MaxDR, mc.MaxDR + 1}[r.Intn(4)]
 			if idx, err := b.GetUplinkChannelIndexForFrequencyDR(mc.Freq, dr); err == nil {
@@ -597,7 +654,11 @@ func (st *state) cmd(structure, what string, mc *lorawan.MACCommand) {
 		return
 	}
 	if err != nil {
-		st.unencodable(structure, what, err)
+		if st.judgeEnc {
+			st.unencodable(structure, what, err)
+		} else {
+			simrt.Count(cOffGridRefused)
+		}
 		return
 	}
 	if diff != "" {
@@ -610,6 +671,7 @@ func (st *state) cmd(structure, what string, mc *lorawan.MACCommand) {
 // out goes through the MAC layer and the wire and must come back unchanged.
 func (st *state) closure(r *sim.Rand) {
 	st.stream, st.streamCmds = nil, nil
+	st.judgeEnc = true
 	defer st.streamClosure()
 	b := st.b
 	var key spec.Key
@@ -620,6 +682,10 @@ func (st *state) closure(r *sim.Rand) {
 		if sim.Guard("panic", func() { cf = b.GetCFList(v) }) || cf == nil {
 			continue
 		}
+		// whether the MAC layer CAN carry a value is only judged for what the
+		// band itself defines and for custom channels on the region's grid; if
+		// it does carry an off-grid value, that value must come back unchanged
+		judgeEnc := true
 		// only custom channels the operator chose on the region's grid count as
 		// "produced by the band" (junk arguments are the caller's problem)
 		if pl, ok := cf.Payload.(*lorawan.CFListChannelPayload); ok {
@@ -634,9 +700,7 @@ func (st *state) closure(r *sim.Rand) {
 				}
 			}
 			_ = pl
-			if !onGrid {
-				continue
-			}
+			judgeEnc = onGrid
 		}
 		simrt.Count(cJoinAccept)
 		d := b.GetDefaults()
@@ -664,7 +728,11 @@ func (st *state) closure(r *sim.Rand) {
 			continue
 		}
 		if err != nil {
-			st.unencodable("CFList", fmt.Sprintf("the CFList offered for %s (%s) in a join-accept", v, sim.DeepSig(cf)), err)
+			if judgeEnc {
+				st.unencodable("CFList", fmt.Sprintf("the CFList offered for %s (%s) in a join-accept", v, sim.DeepSig(cf)), err)
+			} else {
+				simrt.Count(cOffGridRefused)
+			}
 			continue
 		}
 		var rx lorawan.PHYPayload
@@ -694,11 +762,23 @@ func (st *state) closure(r *sim.Rand) {
 	n := len(st.m.Chans)
 	if n > 0 {
 		i := r.Intn(n)
-		if !st.m.Chans[i].Custom || st.grid[i] {
+		{
+			st.judgeEnc = !st.m.Chans[i].Custom || st.grid[i]
 			c, err := b.GetUplinkChannel(i)
 			if err == nil && i < 256 && c.MinDR >= 0 && c.MaxDR <= 15 && c.MinDR <= 15 && c.MaxDR >= 0 {
 				st.cmd("NewChannelReq", fmt.Sprintf("channel %d: %d Hz DR %d..%d", i, c.Frequency, c.MinDR, c.MaxDR),
 					&lorawan.MACCommand{CID: lorawan.NewChannelReq, Payload: &lorawan.NewChannelReqPayload{ChIndex: uint8(i), Freq: c.Frequency, MinDR: uint8(c.MinDR), MaxDR: uint8(c.MaxDR)}})
+			}
+			// the RX1 frequency the band derives for an uplink on this channel is
+			// what a DLChannelReq carries
+			if err == nil && i < 256 {
+				var rf uint32
+				var rerr error
+				if !sim.Guard("panic", func() { rf, rerr = b.GetRX1FrequencyForUplinkFrequency(c.Frequency) }) && rerr == nil {
+					simrt.Count(cRX1Freq)
+					st.cmd("DLChannelReq", fmt.Sprintf("RX1 frequency %d Hz for an uplink on channel %d (%d Hz)", rf, i, c.Frequency),
+						&lorawan.MACCommand{CID: lorawan.DLChannelReq, Payload: &lorawan.DLChannelReqPayload{ChIndex: uint8(i), Freq: rf}})
+				}
 			}
 			if dc, err := b.GetDownlinkChannel(i); err == nil && i < 256 {
 				st.cmd("DLChannelReq", fmt.Sprintf("downlink channel %d: %d Hz", i, dc.Frequency),
@@ -706,6 +786,7 @@ func (st *state) closure(r *sim.Rand) {
 			}
 		}
 	}
+	st.judgeEnc = true
 	// ping-slot frequency
 	var addr lorawan.DevAddr
 	r.Fill(addr[:])
